@@ -559,7 +559,7 @@ def replay_cex(cex):
     if 'twopl' not in flags and I.lprefs is not None:
         I = spec.Inst(I.na, I.ns, I.np, I.nl, I.prefs, I.plec, None, I.plq, I.puq, I.llq, I.lt, I.luq)
     pcf, stab = 'pc' in flags, 'stab' in flags
-    fs = spec.feasible_set(I, pcf, stab)
+    fs = spec.feasible_set(I, pcf, stab) if form == 'feas' else None      # exhaustive: only where it is needed
     txt = spec.inst_to_text(Ifile, trailer=False)
     av = d.get('argv_seq') or argv_of(seq)
     hdr = 'instance:\n%s\nargv: %s %s' % (txt, ' '.join('-' + f for f in sorted(flags)), ' '.join(av))
